@@ -124,6 +124,56 @@ pub fn eval(case: &Case, st: &mut Stats) -> Result<(), String> {
     Ok(())
 }
 
+#[derive(Debug, Clone, Serialize, Deserialize)]
+pub struct TextCase {
+    pub text: Vec<u8>,
+}
+
+/// every accepted text: text -> type -> text is the text up to its comma (raw types) or its
+/// run-collapsed form (normalising types), whatever the raw lengths were
+pub fn eval_text(case: &TextCase, st: &mut Stats) -> Result<(), String> {
+    use oracle::parse::{parse_ref, Counting};
+    let text = &case.text[..];
+    let show = String::from_utf8_lossy(text).to_string();
+    let mut any = false;
+    macro_rules! one {
+        ($ty:ty, $cap2:expr, $norm:expr) => {{
+            let counting = if $norm { Counting::Collapsed } else { Counting::Raw };
+            if let (Ok(p), _) = parse_ref(text, 64, $cap2, counting) {
+                any = true;
+                let exp = if $norm {
+                    format_hash(p.log, &oracle::fmt::collapse(&p.bh1), &oracle::fmt::collapse(&p.bh2))
+                } else {
+                    format_hash(p.log, &p.bh1, &p.bh2)
+                };
+                let h = must("from_bytes", || <$ty>::from_bytes(text))?.map_err(|e| format!("{} rejects {:?}: {:?}", stringify!($ty), show, e))?;
+                let t = must("to_string", || h.to_string())?;
+                ensure_eq!(t, exp, "{}: text -> object -> text of {:?}", stringify!($ty), show);
+                ensure_eq!(must("len_in_str", || h.len_in_str())?, exp.len(), "{}: len_in_str() for {:?}", stringify!($ty), show);
+                if !$norm {
+                    ensure_eq!(t.as_bytes(), &text[..p.end], "{}: raw round trip must reproduce the text up to its comma", stringify!($ty));
+                }
+                let back = must("parse", || t.parse::<$ty>())?.map_err(|e| format!("{} rejects its own text {:?}: {:?}", stringify!($ty), t, e))?;
+                ensure!(back == h && back.full_eq(&h), "{}: parse(to_string(x)) != x for {:?}", stringify!($ty), show);
+                if p.bh1.len() > 64 || p.bh2.len() > $cap2 {
+                    st.class("accepted_with_raw_beyond_capacity");
+                }
+            }
+        }};
+    }
+    one!(ssdeep::RawFuzzyHash, 32, false);
+    one!(ssdeep::LongRawFuzzyHash, 64, false);
+    one!(ssdeep::FuzzyHash, 32, true);
+    one!(ssdeep::LongFuzzyHash, 64, true);
+    if any {
+        st.nontrivial(oracle::fingerprint(text));
+        st.class("accepted_by_some_plain_type");
+    } else {
+        st.class("rejected_by_all_plain_types");
+    }
+    Ok(())
+}
+
 pub fn strategy(p_all: f64) -> impl Strategy<Value = Case> {
     (
         prop_oneof![2 => gens::raw_hash(64), 1 => gens::raw_hash(32)],
@@ -140,11 +190,20 @@ pub fn strategy(p_all: f64) -> impl Strategy<Value = Case> {
 }
 
 pub fn subchecks(tier: Tier) -> Vec<SubCheck> {
-    vec![generated(
+    vec![
+      generated(
+        "accepted_texts_roundtrip",
+        "texts from the parser generators (valid block size, block hashes of up to ~400 raw characters around the capacities before / after collapsing, comma tails, mutations): for every plain type that the reference grammar says accepts the text, text -> object -> text is the text up to its comma (raw types) or its run-collapsed form (normalising types), len_in_str agrees, and the result parses back to a full_eq object; non-trivial = accepted by at least one type; distinct by text",
+        tier.pick(300_000, 4_000_000),
+        || prop_oneof![4 => gens::text_valid_bs(), 1 => gens::text_mix()].prop_map(|text| TextCase { text }),
+        eval_text,
+      ),
+      generated(
         "format_roundtrip",
         "valid objects of the four plain types from run layouts (all 31 block sizes, lengths on the capacities); to_string = Display = String::from = reference formatter; len_in_str; MAX_LEN_IN_STR; parse back (== and full_eq); store_into_bytes with sentinel buffers (10% of cases: every length 0..=MAX+8); text -> type -> text with and without a comma tail; non-trivial = both block hashes non-empty; distinct by text",
         tier.pick(300_000, 4_000_000),
         || strategy(0.1),
         eval,
-    )]
+      ),
+    ]
 }
